@@ -51,7 +51,36 @@ def build(spec) -> bytes:
     if kind == "unknown":    # header and payload fields no schema knows
         return U.make_segment(9, [U.filler(spec[1])], extra_header=b"\xa0\x06\x2a\xaa\x06\x03abc") + \
             U.make_segment(10, [U.filler(5), U.filler(0)], extra_header=b"\xa5\x06\x01\x02\x03\x04")
+    if kind == "merge":      # should_merge segment: full messages of two types + diffs whose base is not the first message
+        return merge_segment(spec[1])
     raise ValueError(spec)
+
+
+def merge_segment(variant: int) -> bytes:
+    """A well-formed `should_merge` segment: message 0 TSK.TreeNode, message 1 TSK.NativeContentDescription,
+    then diff messages (type 0) with base_message_index 0 and 1 - the schema of a diff is its base's schema."""
+    from numbers_parser.generated.mapping import NAME_ID_MAP
+    from numbers_parser.generated.TSKArchives_pb2 import NativeContentDescription, TreeNode
+    from numbers_parser.generated.TSPArchiveMessages_pb2 import ArchiveInfo
+    msgs = [TreeNode(name="root").SerializeToString(),
+            NativeContentDescription(app_name="Numbers", app_version="13.0", document_id=f"doc-{variant}").SerializeToString(),
+            TreeNode(name="renamed root").SerializeToString(),
+            NativeContentDescription(app_version=f"14.{variant}").SerializeToString()]
+    order = [(NAME_ID_MAP["TSK.TreeNode"], None), (NAME_ID_MAP["TSK.NativeContentDescription"], None), (0, 0), (0, 1)]
+    if variant % 2:
+        msgs += [NativeContentDescription(document_id="x" * variant).SerializeToString()]
+        order += [(0, 1)]
+    header = ArchiveInfo(identifier=4700 + variant, should_merge=True)
+    for i, (type_id, base) in enumerate(order):
+        info = header.message_infos.add()
+        info.type = type_id
+        info.version.extend([1, 0, 5])
+        info.length = len(msgs[i])
+        if base is not None:
+            info.base_message_index = base
+            info.diff_merge_version.extend([1, 0, 5])
+    hb = header.SerializeToString()
+    return U.varint(len(hb)) + hb + b"".join(msgs)
 
 
 def synthetic_specs(quick: bool):
@@ -66,6 +95,7 @@ def synthetic_specs(quick: bool):
     specs += [("multi", [[0, 0], [5, 0, 7], [2, 3, 4, 5, 6, 7, 8, 9]]), ("multi", [[CH, 2], [3, CH - 9, 0]]),
               ("multi", [[130, 131, 132, 133, 16387, 16388, 16389]]), ("multi", [[0] * 40, [2] * 90])]
     specs += [("unknown", 9), ("unknown", CH)]
+    specs += [("merge", 0), ("merge", 1), ("merge", 2)]
     return specs
 
 
